@@ -87,6 +87,30 @@ def c13(ctx):
     return _results(ctx, EVAL_KINDS, ["OWN-ARG", "OWN-TOP", "OWN-STATE", "OWN-ATTR"], min_sites=80, min_entries=200)
 
 
+def memo_findings(ctx, rule, message):
+    """OWN-ATTR findings that keep a tensor (or a container of them) from one evaluation call to the next, under
+    another property's rule id: the kept tensor does not follow .double() / .to() (C19) and carries the autograd
+    graph -- or the no_grad-ness -- of the call that made it (C16)."""
+    from ..report import Finding
+
+    dom, it, ents = ctx.shared(("own", EVAL_KINDS), lambda: analyse(ctx.p, EVAL_KINDS))
+    r = RuleResult(rule, message)
+    seen = set()
+    for f in dedupe(dom.findings):
+        if f.rule != "OWN-ATTR" or getattr(f, "value_kind", None) not in ("tensor", "top", "container", "tuple", "list", "dict"):
+            continue
+        key = (f.file, f.qualname, f.construct)
+        if key in seen:
+            continue
+        seen.add(key)
+        g = Finding(rule, f.file, f.qualname, f.node, "%s: %s" % (f.message, message), witness=f.witness, construct=f.construct)
+        g.file = f.file
+        g.line = f.line
+        r.findings.append(g)
+    r.ok("%d evaluation entry points: no tensor is kept in a plain attribute from one call to the next (the Linear cache is C10's)" % len(ents), nontrivial=False)
+    return r
+
+
 def c20_pure(ctx):
     return _results(ctx, ("util",), ["UT-PURE"], min_sites=2, min_entries=16)
 
